@@ -241,6 +241,13 @@ struct Sys {
 }
 
 impl Sys {
+    /// State identity for deduplication: the model state (clock + visible keyspace) AND the executor's own
+    /// bookkeeping (raw key table, deadline table). Two histories are merged only when both agree, so a
+    /// leftover the commands do not show yet (e.g. a deadline surviving its key) keeps its own future.
+    fn fingerprint(&self) -> String {
+        format!("{} |impl {:?}", self.model.fingerprint(), self.ex.verif_hidden_state())
+    }
+
     fn new() -> Self {
         let mut ex = CommandExecutor::new();
         ex.set_time(VirtualTime::from_millis(T0));
@@ -441,7 +448,7 @@ fn run_checked(history: &[Argv], op: &Argv) -> Result<String, (String, String)> 
         );
         return Err((sig, detail));
     }
-    Ok(sys.model.fingerprint())
+    Ok(sys.fingerprint())
 }
 
 vh::use_jemalloc!();
@@ -483,7 +490,8 @@ fn main() {
         let ops: Vec<Argv> = alphabet.iter().map(|l| resp::line(l)).collect();
         let mut bfs = Bfs::new(ops.len(), depth);
         bfs.deadline = Some(Instant::now() + per_family_budget);
-        let init = Sys::new().model.fingerprint();
+        bfs.probe_duplicates = true;
+        let init = Sys::new().fingerprint();
         let stats = bfs.run(&init, |hist, o| {
             let h: Vec<Argv> = hist.iter().map(|i| ops[*i as usize].clone()).collect();
             let op = &ops[o as usize];
@@ -511,20 +519,21 @@ fn main() {
             all_exhaustive = false;
         }
         eprintln!(
-            "family {name}: ops={} depth={} completed={} states={} transitions={} pruned={} truncated={} ({:.1}s)",
+            "family {name}: ops={} depth={} completed={} states={} transitions={} pruned={} dup-probes={} truncated={} ({:.1}s)",
             ops.len(),
             depth,
             stats.depth_completed,
             stats.states,
             stats.transitions,
             stats.pruned_transitions,
+            stats.duplicate_probes,
             stats.truncated,
             rep.elapsed_s()
         );
         fam_reports.push(json!({
             "family": name, "alphabet_size": ops.len(), "depth_bound": depth, "depth_completed": stats.depth_completed,
             "states": stats.states, "transitions": stats.transitions, "violating_transitions": stats.pruned_transitions,
-            "truncated_by_time_cap": stats.truncated, "frontier_sizes": stats.frontier_sizes,
+            "truncated_by_time_cap": stats.truncated, "frontier_sizes": stats.frontier_sizes, "one_step_probes_from_deduplicated_successors": stats.duplicate_probes,
         }));
         samples.push(json!({"family": name, "sample_sequence": alphabet.iter().step_by((alphabet.len() / 3).max(1)).take(3).collect::<Vec<_>>()}));
     }
